@@ -33,9 +33,14 @@ ReopenCheck(e, ln) ==
 
 BadValue(rows) == \E i \in DOMAIN rows : \E j \in DOMAIN rows[i] : rows[i][j] = -99
 
-PinCheck(e, ln) == IF Has(e, "pb") /\ e.pb # e.pa THEN V("C14.pins", ln, <<e.ev, e.pb, e.pa>>) ELSE <<>>
+(* C14: "leaves no buffer frame pinned that was not pinned before it started": the set of pinned pages *)
+PinnedPages(p) == {p[i][1] : i \in DOMAIN p}
+PinCheck(e, ln) == IF Has(e, "pb") /\ PinnedPages(e.pb) # PinnedPages(e.pa) THEN V("C14.pins", ln, <<e.ev, e.pb, e.pa>>) ELSE <<>>
 (* a statement of an explicit transaction may abort the transaction (the caller then rolls back) *)
-FailCheck(e, ln) == IF e.res # "ok" /\ ~(Has(e, "intxn") /\ e.res = "abort") THEN V(Tag(e, ".fail"), ln, <<e.ev, e.res>>) ELSE <<>>
+(* so may a statement that runs against rows another open transaction has locked; a statement the planner   *)
+(* rejects returns an error by design                                                                        *)
+FailCheck(e, ln) == IF e.res # "ok" /\ ~((Has(e, "intxn") \/ Has(e, "conflict")) /\ e.res = "abort")
+                       /\ ~(Has(e, "rejected") /\ SubSeq(e.res, 1, 3) = "err") THEN V(Tag(e, ".fail"), ln, <<e.ev, e.res>>) ELSE <<>>
 
 Ordered(keys) == \A i \in 1..(Len(keys) - 1) : keys[i] <= keys[i + 1]
 InRange(v, lo, hi) == v # Null /\ (lo = -2 \/ v >= lo) /\ (hi = -2 \/ v <= hi)
@@ -45,7 +50,7 @@ RangeRows(t, c, lo, hi) == LET r == tables[t].rows IN
             /\ Cardinality({k \in 1..j : InRange(r[k][c + 1], lo, hi)}) = i]]
 
 SelectCheck(e, ln) ==
-  IF e.res # "ok" THEN <<>>
+  IF e.res # "ok" \/ Has(e, "rejected") THEN <<>>
   ELSE IF BadValue(e.rows) THEN V(Tag(e, ".value"), ln, <<e.ev, e.t>>)
   ELSE IF ~SameBag(e.rows, Answer(e.t, e.pred, e.proj))
          THEN V(Tag(e, ".rows"), ln, [stmt |-> <<e.t, e.pred, e.proj>>, plan |-> e.plan, got |-> e.rows,
